@@ -82,10 +82,13 @@ func c13Gen(seed uint64, run int, tier string) *Case {
 			c.Ops = append(c.Ops, Op{K: "flush"})
 		case 7:
 			c.Ops = append(c.Ops, Op{K: "clunkbad"})
-		case 8, 9:
+		case 8:
 			c.Ops = append(c.Ops, Op{K: "wstat"}) // a frame of exactly msize bytes
+		case 9:
+			c.Ops = append(c.Ops, Op{K: []string{"wstat", "bigstat"}[r.Intn(2)]}) // bigstat: the implementation's answer does not fit msize
 		}
 	}
+	c.Cfg["smsize"] = int64(r.Pick(ms, ms, 16384)) // the server may be willing to go higher than the client asks
 	return c
 }
 
@@ -110,9 +113,16 @@ func c13Exec(x *Ctx) {
 		if (inv.Op == "write" || inv.Op == "read") && holdpct > 0 && rt.Choose(100) < holdpct {
 			p.Mode = PHold
 		}
+		if inv.Op == "stat" {
+			p.StatNameLen = int(ms) // an Rstat larger than the negotiated msize
+		}
 		return p
 	}
-	sys := NewSrvSys(x, fs, fs, ms, true, int(c.cfg("maxpend")), int(c.cfg("debug")))
+	smsize := ms
+	if v := uint32(c.cfg("smsize")); v > ms {
+		smsize = v
+	}
+	sys := NewSrvSys(x, fs, fs, smsize, true, int(c.cfg("maxpend")), int(c.cfg("debug")))
 	sc := sys.AddConn(0, int(c.cfg("seg")))
 	peer := sc.Peer
 	fifo := c.cfg("fifo") == 1
@@ -163,6 +173,8 @@ func c13Exec(x *Ctx) {
 				e.m = &Msg{Type: Tflush, Tag: tag, Oldtag: 60000}
 			case "clunkbad":
 				e.m = &Msg{Type: Tclunk, Tag: tag, Fid: 77777}
+			case "bigstat":
+				e.m = &Msg{Type: Tstat, Tag: tag, Fid: 0}
 			case "wstat":
 				e.m = &Msg{Type: Twstat, Tag: tag, Fid: 1, Stat: Stat{Type: 0xFFFF, Dev: 0xFFFFFFFF, Qid: Qid{0xFF, 0xFFFFFFFF, ^uint64(0)}, Mode: 0xFFFFFFFF,
 					Atime: 0xFFFFFFFF, Mtime: uint32(i), Length: ^uint64(0), Nuid: 0xFFFFFFFF, Ngid: 0xFFFFFFFF, Nmuid: 0xFFFFFFFF}}
@@ -274,6 +286,13 @@ func c13Exec(x *Ctx) {
 		switch e.kind {
 		case "flush":
 			want = &Msg{Type: Rflush}
+		case "bigstat":
+			// what the implementation answered does not fit the negotiated msize: an error does, however the
+			// request stream was cut up
+			if rep.M.Type != Rerror || rep.M.Tag != e.m.Tag || len(rep.Raw) > int(ms) {
+				x.Violate("s5-reply", "message %d (%s), whose Rstat cannot fit msize %d: reply %s (%d bytes), want an Rerror that fits", i, e.m, ms, rep.M, len(rep.Raw))
+			}
+			continue
 		case "clunkbad":
 			// refused by the framework; the error number is the library's business
 			if rep.M.Type != Rerror || !bytes.Contains([]byte(rep.M.Ename), []byte("unknown fid")) || rep.M.Tag != e.m.Tag {
